@@ -371,6 +371,8 @@ def benign_atom(a, hits, row, role_refs, rl):
                 return True
     if a[0] == "next" and a[-1] is True:
         return True  # "there is a (next) item": inherent to a refusal about an item; which items are visited is the loop rules' business
+    if a[0] == "next" and a[-1] is False:
+        return True  # an earlier loop has run to its end (it is on every path here, so exhaustion is its only way out; C06 LOOP: it ends)
     if a[0] == "is" and a[-1] in ("Some", "Vacant", "Ok", "Ok?"):
         subj = a[1]
         text = str(row.get("callterm", "")) + str(row.get("errterm", "")) + str(row.get("args", ""))
@@ -491,10 +493,14 @@ def row_matches(facts, rl, inv, ref, row, role_refs=()):
                 return False
             for a, w in zip(args, want):
                 if w == "parts":
-                    if not (isinstance(a, tuple) and a[0] == "Var"):
+                    # the accumulator of the parser, or (a decoder that is handed only what it fills) its qualifier list
+                    if not (isinstance(a, tuple) and (a[0] == "Var" or (a[0] == "Field" and a[1].endswith(".qualifiers") and a[1].startswith("var_")))):
                         return False
                 elif w == "qualifiers":
-                    if not (isinstance(a, tuple) and a[0] == "Field" and a[1].endswith(".qualifiers")):
+                    # the qualifier list: a field of the accumulator argument, or the argument itself when the decoder
+                    # receives `&mut Qualifiers`
+                    isq = isinstance(a, tuple) and ((a[0] == "Field" and a[1].endswith(".qualifiers")) or (a[0] == "Input" and row.get("fn") in facts.fns and any("qualifiers::Qualifiers" in t_ for t_ in facts.fns[row["fn"]].get("inputs", [])[a[1] - 1:a[1]])))
+                    if not isq:
                         return False
                 elif loosen(a) != loosen(w):
                     return False
